@@ -3,7 +3,7 @@ import math
 
 import numpy as np
 
-from checks.common import aff, farr, call_warn, is_num
+from checks.common import aff, farr, call_warn, is_num, medium_diagram
 from mc.barrier import allgather
 from mc.enumerate import lattice_points, multisets_upto
 from oracles import simple as OS
@@ -148,6 +148,23 @@ def _pair(ctx, A, B):
     return out
 
 
+def medium_pair(ctx, A, B):
+    import persim
+
+    # integer-valued copies (coordinates x2 are integers for the lattice-rounded members) as int arrays
+    if all(float(2 * x).is_integer() for p in A + B for x in p):
+        A2, B2 = [[2 * p[0], 2 * p[1]] for p in A], [[2 * p[0], 2 * p[1]] for p in B]
+        ia, ib = np.array(A2, dtype=int).reshape(-1, 2), np.array(B2, dtype=int).reshape(-1, 2)
+        for M in (3, 50):
+            check_val(ctx, "value-medium", ctx.call(persim.sliced_wasserstein, ia, ib, M=M), A2, B2, M, "medium integer arrays, M=%d" % M)
+            check_val(ctx, "value-medium", ctx.call(persim.sliced_wasserstein, ia, farr(B2), M=M), A2, B2, M, "medium int vs float arrays, M=%d" % M)
+    for M in (1, 7, 50):
+        ctx.state(("medium", A, B, M))
+        check_val(ctx, "value-medium", sw(ctx, A, B, M), A, B, M, "medium diagrams, M=%d" % M)
+    ctx.nontriv("medium_pair", key=("medium", A, B))
+    shared_unchanged(ctx)
+
+
 def msweep(ctx, A, B, m_hi):
     for M in range(1, m_hi + 1):
         ctx.state((A, B, M))
@@ -158,6 +175,8 @@ def msweep(ctx, A, B, m_hi):
 
 def run_case(case, ctx):
     """Replay entry: one pair, or one triple."""
+    if case["kind"] == "medium":
+        return medium_pair(ctx, case["A"], case["B"])
     if case["kind"] == "msweep":
         return msweep(ctx, case["A"], case["B"], case["m_hi"])
     if case["kind"] == "pair":
@@ -202,6 +221,17 @@ def run_shard(ctx):
             continue
         case = {"kind": "msweep", "A": cover[a], "B": cover[b], "m_hi": m_hi}
         ctx.run_case(_M, case, fn=lambda c, cx: msweep(cx, c["A"], c["B"], c["m_hi"]))
+    # medium diagrams (6..14 points, unequal sizes, generic and lattice-rounded)
+    med = [(n, k, lat) for lat in (True, False) for n in ((6, 9, 14) if ctx.tier == "quick" else (6, 7, 9, 14, 25)) for k in range(2)]
+    mjobs = [(a, b) for a in range(len(med)) for b in range(len(med))]
+    for jx, (a, b) in enumerate(mjobs):
+        if jx % ctx.nshards != ctx.shard:
+            continue
+        A_, B_ = medium_diagram(*med[a]), medium_diagram(*med[b])
+        A_ = [[p[0] - 6.0, p[1] - 6.0] for p in A_]   # either sign
+        B_ = [[p[0] - 6.0, p[1] - 6.0] for p in B_]
+        case = {"kind": "medium", "A": A_, "B": B_}
+        ctx.run_case(_M, case, fn=lambda c, cx: medium_pair(cx, c["A"], c["B"]))
     full = {}
     for part in allgather(ctx, "c15", table):
         full.update(part)
